@@ -1,7 +1,9 @@
 (* Proofs/C05_conc_inv.v -- C05, concurrency: assertions of the native-histogram step machine (Model/NativeConc.v,
    instance lmachine: counters carry the observed values) and their preservation.
    1 maps; 2 value cells; 3 assertions Phi over (shared state, in-flight counts f, stage-B values sb) for every pc of
-   the mutex holder; 4 Hoare-style lemma for every step of the holder (hoare); 5 interference: every assertion is
+   the mutex holder (reset: PreC before the swap, HB while the holder repeats its observation, RC during the cool-down
+   after the swap - the ticket counter restarted with the new hot set -, Wipe/PostDel while the formerly hot set is
+   cleared); 4 Hoare-style lemma for every step of the holder (hoare, hoare_reset); 5 interference: every assertion is
    stable under the steps of observers (phi_obs); 6 what one observer step does (obs_local).
    The thread-level invariant and the theorems are in Proofs/C05_conc.v. *)
 From Coq Require Import ZArith List Bool Lia Permutation Sorted.
